@@ -53,7 +53,7 @@ COMPONENTS = {
 }
 PROBES = {"same_size_edit": 1, "racy_same_granule_edit": 1,
           "status_reported_change": 1, "roundtrip_checked": 1,
-          "kind_replacement": 1}
+          "kind_replacement": 1, "untracked_dir_collapsed": 1}
 MIN_BUDGET = 200
 
 NAMES = [b"a.txt", b"b", b"dir/c.txt", b"dir/sub/d", b"x y.txt",
@@ -315,6 +315,32 @@ def run_plan(plan):
                 viol("untracked-wrong",
                      f"{label}: got {sorted(got_untracked)} want "
                      f"{sorted(exp_untracked)}")
+            # the default mode: a directory without tracked files is shown
+            # once, as 'dir/'
+            exp_normal = set()
+            for p in exp_untracked:
+                parts = p.split(b"/")
+                rep = p
+                for i in range(1, len(parts)):
+                    d = b"/".join(parts[:i]) + b"/"
+                    if not any(q.startswith(d) for q in m.index):
+                        rep = d
+                        break
+                exp_normal.add(rep)
+            try:
+                st2 = porcelain.status(r, untracked_files="normal")
+            except Exception as e:  # noqa: BLE001
+                viol(f"status-raised/normal/{type(e).__name__}",
+                     f"{label}: {e!r}")
+                return
+            got_normal = {os.fsencode(x) if isinstance(x, str) else x
+                          for x in st2.untracked}
+            if got_normal != exp_normal:
+                viol("untracked-wrong/normal",
+                     f"{label}: got {sorted(got_normal)} want "
+                     f"{sorted(exp_normal)}; index has {sorted(m.index)[:12]}")
+            if exp_normal != exp_untracked:
+                stats["probe:untracked_dir_collapsed"] = 1
 
         def write_file(p, data, exe=None):
             fp = fspath(p)
@@ -464,8 +490,9 @@ def run_plan(plan):
                     del m.wd[p]
                     m.why[p] = "deleted"
                 elif op == "untracked":
-                    p = b"new%d.txt" % (ed["i"] % 3) if ed["i"] % 2 else \
-                        b"dir/new%d" % (ed["i"] % 3)
+                    p = [b"new%d.txt", b"dir/new%d", b"dir/newsub/n%d",
+                         b"b.d/u%d", b"di/r%d", b"dir2/sub/deep/u%d",
+                         b"dir/new%d"][ed["i"] % 7] % (ed["i"] % 3)
                     if p in m.wd or any(q.startswith(p + b"/") or
                                         p.startswith(q + b"/") for q in m.wd):
                         continue
